@@ -55,7 +55,35 @@ static RunResult run_c16(const RunSpec &spec) {
             RunSpec s2 = spec; s2.prop = DOCP[spec.run % 8];
             // run_seed_of depends on the property name: keep this run's own seed stream by passing the C16 spec through a sub-seed
             s2.seed = hmix(spec.seed, hstr("C16-doc")); res = eng_doc_run(s2);
-        } else if (sel < 78) { what = "value"; res = eng_value_run_cfg(spec, prop, false, true); }
+        } else if (sel < 74) { what = "value"; res = eng_value_run_cfg(spec, prop, false, true); }
+        else if (sel < 79) {
+            // cif_parse into a managed CIF whose storage spills to the simulated disk, with one storage-engine I/O fault (write / read /
+            // truncate / open error, disk full) somewhere in the parse: only the monitors, the result-code class and the usability of
+            // whatever CIF comes back are judged
+            what = "parse_disk";
+            g_plan_n_ops = 0; g_plan_fault_ops.clear(); plan_ready();
+            Rng pr(hmix(run_seed_of(spec), hstr("parse_disk")));
+            Doc d; std::vector<unsigned char> bytes = small_doc(spec, &d, 9);
+            g_disk.cache_pages = (int) pr.range(1, 4); g_disk.no_lookaside = pr.chance(1, 3);
+            static const int CODES[] = { SQLITE_FULL, SQLITE_IOERR_WRITE, SQLITE_IOERR_READ, SQLITE_IOERR_TRUNCATE, SQLITE_CANTOPEN, SQLITE_IOERR_FSYNC };
+            int kind = (int) pr.range(1, 7); long at = 1 + (long) pr.below(pr.chance(1, 2) ? 12 : 200); int code = CODES[pr.below(6)]; bool sticky = pr.chance(1, 2);
+            if (spec.mods.no_faults) kind = 0;
+            ParseOpts o; o.policy = pr.chance(2, 3) ? 1 : 0; o.target = pr.chance(1, 5) ? 2 : 1; o.max_frame_depth = -1; StreamCfg sc; sc.chunk = pr.chance(1, 2) ? (size_t) pr.range(1, 300) : 0;
+            cif_tp *existing = NULL; if (o.target == 2 && cif_create(&existing) != CIF_OK) { existing = NULL; o.target = 1; }
+            if (kind) { g_disk.arm(kind, at, code, sticky); g_stats.inc("fault.disk.configured"); }
+            ParseOutcome out = run_parse(bytes, o, sc, existing);
+            bool fired = g_disk.fired; g_disk.disarm();
+            if (fired) g_stats.inc("fault.disk.fired");
+            ev("parse_disk: %zu bytes, cache=%d kind=%d at=%ld code=%d sticky=%d -> %s, fault fired=%d, vfs writes=%ld reads=%ld", bytes.size(), g_disk.cache_pages, kind, at, code, sticky ? 1 : 0, rc_name(out.rc), fired ? 1 : 0, g_disk.n_write, g_disk.n_read);
+            g_stats.cover(hmix(hstr("c16pd"), hmix((uint64_t) kind * 2 + (fired ? 1 : 0), (uint64_t) (out.rc + 7))));
+            std::unique_ptr<Violation> bad;
+            if (!rc_defined(out.rc)) bad.reset(new Violation(prop + ".memory", "parse_disk:undefined_code", strprintf("cif_parse returned the undefined code %d under a storage fault", out.rc), -1));
+            if (!fired && out.rc != CIF_OK && out.errs.empty()) bad.reset(new Violation(prop + ".memory", "parse_disk:failed_without_fault", strprintf("cif_parse of a well-formed document failed with %s although no fault fired", rc_name(out.rc)), -1));
+            cif_tp *c = out.cif ? out.cif : existing;
+            if (c) { int q = cif_destroy(c); if (q != CIF_OK && !fired && !bad) bad.reset(new Violation(prop + ".release", "cif_destroy", strprintf("cif_destroy -> %s", rc_name(q)), -1)); }
+            g_disk.cache_pages = 0; g_disk.no_lookaside = false;
+            if (bad) throw *bad;
+        }
         else if (sel < 85) { what = "walk"; res = eng_walk_run_cfg(spec, prop, false); }
         else {
             // error paths: the same workloads under allocation failures (C17's enumeration), monitors only
